@@ -159,7 +159,7 @@ fn sweep(ctx: &Ctx) {
 }
 
 pub fn props() -> Vec<(Box<dyn PropDyn>, u32, u32)> {
-    vec![(Box::new(Prop::new("shape", case_strategy, check).shrink(600)), 4000, 100000)]
+    vec![(Box::new(Prop::new("shape", case_strategy, check).shrink(600)), 20000, 300000)]
 }
 
 pub fn sweeps(ctx: &Ctx) {
